@@ -224,6 +224,9 @@ type GenProfile struct {
 	// LateAnswers: an unanswered Session Report Request is answered later ("lateans" step, mostly with SEID 0) -
 	// after other requests, after the deletion of the session it was about, or twice for two reports
 	LateAnswers bool
+	// Churn: now and then several sessions are deleted in a row, then as many established, then each new one is
+	// modified (several SEIDs are free at once when the allocator is asked again)
+	Churn bool
 }
 
 type genSess struct {
@@ -388,6 +391,7 @@ func Generate(r *Rng, p GenProfile) *History {
 	}
 	pendingTx := false
 	var pendingRefs []int // indices of report steps whose request is still unanswered
+	var forced []int      // op kinds queued by a churn burst
 	for len(g.h.Ops) < nops {
 		if p.LateAnswers && len(pendingRefs) > 0 && r.Chance(1, 4) {
 			k := r.Intn(len(pendingRefs))
@@ -445,6 +449,30 @@ func Generate(r *Rng, p GenProfile) *History {
 		for c >= w[k] {
 			c -= w[k]
 			k++
+		}
+		if p.Churn {
+			if len(forced) == 0 && len(live) >= 2 && r.Chance(1, 6) {
+				n := 2 + r.Intn(2)
+				if n > len(live) {
+					n = len(live)
+				}
+				for j := 0; j < n; j++ {
+					forced = append(forced, 4)
+				}
+				for j := 0; j < n; j++ {
+					forced = append(forced, 2)
+				}
+				for j := 0; j < n; j++ {
+					forced = append(forced, 3)
+				}
+			}
+			if len(forced) > 0 {
+				k = forced[0]
+				forced = forced[1:]
+				if (k == 3 || k == 4) && len(live) == 0 {
+					continue
+				}
+			}
 		}
 		switch k {
 		case 0:
